@@ -27,7 +27,7 @@ PROPS = {
         'design_ref': 'DESIGN.md section 5 C19',
     },
     'C20': {
-        'modules': FS_MODULES + ['contracts.pack_swap', 'contracts.demostorage'],
+        'modules': FS_MODULES + ['contracts.pack_swap', 'contracts.demostorage', 'contracts.mappingstorage'],
         'lemmas': ['contracts.lemmas:lemma_c20_fresh'],
         'level': 'proof',
         'bounded': [
@@ -116,7 +116,7 @@ PROPS = {
     },
     'C03': {
         'modules': FS_MODULES + ['contracts.demostorage', 'contracts.conflict', 'contracts.connection',
-                                 'contracts.mappingstorage'],
+                                 'contracts.mappingstorage', 'contracts.basestorage'],
         'lemmas': [],
         'level': 'proof',
         'bounded': [
@@ -281,7 +281,7 @@ PROPS['C13'] = {
 
 PROPS['C17'] = {
     'modules': ['contracts.fs_format', 'contracts.fs_load', 'contracts.blobmodel', 'contracts.fs_write',
-                'contracts.recover', 'contracts.fs_iter', 'contracts.copytxn'],
+                'contracts.recover', 'contracts.fs_iter', 'contracts.copytxn', 'contracts.basestorage'],
     'lemmas': [],
     'level': 'proof',
     'bounded': [
